@@ -1007,6 +1007,31 @@ type BlockTransactionOffsets struct {
 	Transactions []TransactionLocation
 }
 
+// isByronEpochBoundaryBlock checks whether a decoded block array represents a
+// Byron epoch boundary block (EBB). An EBB has 3 elements like a Byron main
+// block, [header, body, extra], but its body is a flat list of stakeholder IDs
+// and it carries no transactions. It is recognized by its header: a 5-element
+// array whose consensus data (4th element) is the pair [epoch, difficulty],
+// where a Byron main block has [slotid, pubkey, difficulty, blocksig] and a
+// Shelley+ header is a 2-element array.
+func isByronEpochBoundaryBlock(blockArray []cbor.RawMessage) bool {
+	if len(blockArray) != 3 {
+		return false
+	}
+	var headerParts []cbor.RawMessage
+	if _, err := cbor.Decode([]byte(blockArray[0]), &headerParts); err != nil {
+		return false
+	}
+	if len(headerParts) != 5 {
+		return false
+	}
+	var consensusData []cbor.RawMessage
+	if _, err := cbor.Decode([]byte(headerParts[3]), &consensusData); err != nil {
+		return false
+	}
+	return len(consensusData) == 2
+}
+
 // isByronBlock checks whether a decoded block array represents a Byron-era block.
 // Byron main blocks have exactly 3 elements: [header, body, extra]
 // where body is a 4-element array [tx_payload, ssc_payload, dlg_payload, upd_payload]
@@ -1510,7 +1535,7 @@ func ExtractTransactionOffsets(cborData []byte) (*BlockTransactionOffsets, error
 		return extractDijkstraTransactionOffsets(cborData, blockArray)
 	}
 
-	if len(blockArray) < 3 {
+	if len(blockArray) < 3 || isByronEpochBoundaryBlock(blockArray) {
 		// Block doesn't have separated components (e.g., Byron EBB)
 		// Return empty slice instead of nil to prevent nil pointer dereference
 		return &BlockTransactionOffsets{Transactions: []TransactionLocation{}}, nil
